@@ -401,6 +401,7 @@ struct GenCfg
 	bool allowIntKeys = false;
 	bool allowBin = true;
 	bool forceContainerRoot = false;
+	bool simpleFloats = false;          // KF-JSON-DOUBLE-PRECISION: doubles that RapidJSON's fast parser reads exactly
 	uint32_t kindMask = 0xFFFFFFFFu;   // swarm: enabled kinds
 };
 
@@ -456,8 +457,11 @@ inline void GenScalar(Source& s, Lane l, DynNode& n, const GenCfg& g)
 	case K::U32: n.u32 = static_cast<uint32_t>(GenUnsigned(s, l, 32)); break;
 	case K::I64: n.i64 = GenSigned(s, l, 64); break;
 	case K::U64: n.u64 = GenUnsigned(s, l, 64); break;
-	case K::F32: n.f32 = GenFloat(s, l, g.allowNonFinite); break;
-	case K::F64: n.f64 = GenDouble(s, l, g.allowNonFinite); break;
+	case K::F32: n.f32 = GenFloat(s, l, g.allowNonFinite); if (g.simpleFloats && std::isfinite(n.f32) && std::fabs(n.f32) > 3.4e38f) n.f32 = 1.5f; break;
+	case K::F64:
+		if (g.simpleFloats) { n.f64 = static_cast<double>(s.range(l, -100000, 100000)) / 8.0; if (g.allowNonFinite && s.chance(l, 1, 8)) n.f64 = GenDouble(s, l, true); if (std::isfinite(n.f64) && n.f64 != std::floor(n.f64 * 8.0) / 8.0) n.f64 = 0.5; }
+		else n.f64 = GenDouble(s, l, g.allowNonFinite);
+		break;
 	case K::Str: n.s = ToUtf8(GenText(s, l, tp, g.maxStr)); break;
 	case K::Str16: n.s16 = ToUtf16(GenText(s, l, tp, g.maxStr / 2)); break;
 	case K::Str32: n.s32 = GenText(s, l, tp, g.maxStr / 4); break;
@@ -505,7 +509,12 @@ inline void GenChildren(Source& s, Lane l, DynNode& n, const GenCfg& g, int dept
 		{
 			Key k;
 			if (g.allowIntKeys && s.chance(l, 1, 6)) { k.isInt = true; k.i = static_cast<int64_t>(i) * 7 + s.range(l, -3, 3) * 1000; }
-			else k.s = GenKeyName(s, l, g.archive, i);
+			else
+			{
+				k.s = GenKeyName(s, l, g.archive, i);
+				// an integer key is converted to its decimal text by the text archives: keep string keys distinct from those
+				if (k.s.find_first_not_of("-0123456789") == std::string::npos) k.s = "s" + k.s;
+			}
 			n.keys.push_back(std::move(k));
 		}
 	}
